@@ -49,6 +49,10 @@ impl Analyzer
 #[cfg(feature = "verif")]
 pub use mutability::verif_hooks as verif_mutability_hooks;
 
+/// Verification hook: the function call pass on one expression/statement.
+#[cfg(feature = "verif")]
+pub use function_calls::verif_hooks as verif_function_call_hooks;
+
 /// Verification hook: the syntax pass on its own.
 #[cfg(feature = "verif")]
 pub fn verif_syntax_analyze(declaration: Declaration) -> Declaration
